@@ -494,6 +494,15 @@ func (r *Regex) LiteralPrefix() (prefix string, complete bool) {
 func literalPrefix(re *syntax.Regexp) (string, bool) {
 	switch re.Op {
 	case syntax.OpLiteral:
+		if re.Flags&syntax.FoldCase != 0 {
+			// Case-insensitive literal: like stdlib, the prefix ends at the first rune
+			// that has case variants (e.g. (?i)foo has no literal prefix).
+			for i, r := range re.Rune {
+				if unicode.SimpleFold(r) != r {
+					return string(re.Rune[:i]), false
+				}
+			}
+		}
 		return string(re.Rune), true
 	case syntax.OpConcat:
 		// Concatenation: collect literal prefixes from the beginning
@@ -501,10 +510,8 @@ func literalPrefix(re *syntax.Regexp) (string, bool) {
 		hasAnchor := false
 		for _, sub := range re.Sub {
 			switch sub.Op {
-			case syntax.OpLiteral:
-				prefix = append(prefix, sub.Rune...)
-			case syntax.OpCapture:
-				// Look inside capture group
+			case syntax.OpLiteral, syntax.OpCapture:
+				// Look inside capture group / stop at case-insensitive runes
 				inner, complete := literalPrefix(sub)
 				prefix = append(prefix, []rune(inner)...)
 				if !complete {
